@@ -364,4 +364,40 @@ theorem applyBordersTable_eq_spec (spec : List ColStyle) (rows : List RowR) :
       rw [hs]
       simpa [specRows, hx', keep, ownRow] using this
 
+
+/-! ### the rows handed to `Array.applyBorders` are the rows as written -/
+
+theorem kind_mk (t : Tok) (ch : List Node) : (Node.mk t ch).kind = t.kind := rfl
+theorem ch_mk (t : Tok) (ch : List Node) : (Node.mk t ch).ch = ch := rfl
+
+open PlasVerif.Spec.ListTree in
+theorem cells_written : ∀ (cs : Cells) (d : Nat),
+    ((cs.nodes d).filter (·.kind == .cell)).map cellOf = cs.toList.map (writtenCell d)
+  | .nil, d => by simp [Cells.nodes, Cells.toList]
+  | .cons c rest, d => by
+    have ih := cells_written rest d
+    simp only [Cells.nodes, Cells.toList, List.filter_cons, kind_mk, beq_self_eq_true, if_true, List.map_cons, ih]
+    rfl
+
+open PlasVerif.Spec.ListTree in
+theorem rows_written : ∀ (rs : Rows) (d : Nat),
+    (rs.nodes d).filterMap (fun r => if r.kind == .row then some (r.ch.filter (·.kind == .cell) |>.map cellOf) else none)
+      = rs.toList.map fun r => r.map (writtenCell d)
+  | .nil, d => by simp [Rows.nodes, Rows.toList]
+  | .cons c cs rest, d => by
+    have ih := rows_written rest d
+    have hc := cells_written cs d
+    simp only [Rows.nodes, Rows.toList, List.filterMap_cons, kind_mk, ch_mk, beq_self_eq_true, if_true, List.filter_cons,
+      List.map_cons, ih, hc]
+    rfl
+
+open PlasVerif.Spec.ListTree in
+theorem rowsOf_table (d ty : Nat) (c : Blocks) (cs : Cells) (rs : Rows) :
+    rowsOf ((Block.table ty c cs rs).node d) = writtenRows (d + 2) c cs rs := by
+  have hr := rows_written rs (d + 2)
+  have hc := cells_written cs (d + 2)
+  simp only [rowsOf, Block.node, ch_mk, List.filterMap_cons, kind_mk, beq_self_eq_true, if_true, List.filter_cons,
+    List.map_cons, hr, hc, writtenRows]
+  rfl
+
 end PlasVerif.Proofs.Arrays
